@@ -5,3 +5,4 @@ import Tfv.Props.C01
 import Tfv.Props.C02
 import Tfv.Props.C14
 import Tfv.Props.C20
+import Tfv.Props.C09
